@@ -27,6 +27,7 @@ def registry():
 
 def case(prog, params):
     ex = new_ex(prog)
+    if params.get('kind') == 'multipart': ex.fork_read_until = 6
     ex.models = registry() + ex.models; ex.model_cache = {}
     cons = []
     reqb, sy = C10.build_request(params, cons)
